@@ -279,6 +279,48 @@ def r24_5(ctx, rep):
            "the generated module binds %s itself; a Modelica variable of that name is emitted unchanged and shadows it (missing from BUILTINS: %s)" % (sorted(need), missing))
 
 
+@SPEC.rule(
+    "R24.6",
+    "classification lists are consulted only when complete: in SympyGenerator.exitClass a membership test `s in <list>` / `s not "
+    "in <list>` on one of the classification lists (states, inputs, outputs, ...) never sits inside a loop that still appends to "
+    "that list — the 'state' prefix comes last in a symbol's prefixes, so a test made while the symbol's prefixes are being "
+    "dispatched does not yet see it as a state and lists an output state among the plain variables as well",
+)
+def r24_6(ctx, rep):
+    R = "R24.6"
+    fn = ctx.func(SYM, CLS + ".exitClass", R)
+    site = "%s:%s.exitClass" % (SYM, CLS)
+    lists = {st.targets[0].id for st in fn.body if isinstance(st, ast.Assign) and isinstance(st.targets[0], ast.Name) and isinstance(st.value, ast.List) and not st.value.elts}
+    if len(lists) < 5:
+        raise MechanismMissing(R, "classification lists of exitClass not found")
+
+    def fills(loop, name):
+        for x in ast.walk(loop):
+            if isinstance(x, ast.AugAssign) and is_name(x.target, name):
+                return True
+            if isinstance(x, ast.Call) and isinstance(x.func, ast.Attribute) and x.func.attr in ("append", "extend", "insert") and is_name(x.func.value, name):
+                return True
+        return False
+
+    n = 0
+    for c in ast.walk(fn):
+        if isinstance(c, ast.Compare) and len(c.ops) == 1 and isinstance(c.ops[0], (ast.In, ast.NotIn)) and isinstance(c.comparators[0], ast.Name) \
+                and c.comparators[0].id in lists:
+            n += 1
+            lst = c.comparators[0].id
+            p_ = getattr(c, "_parent", None)
+            inside = None
+            while p_ is not None and p_ is not fn:
+                if isinstance(p_, (ast.For, ast.While)) and fills(p_, lst):
+                    inside = p_
+                p_ = getattr(p_, "_parent", None)
+            rep.ob(R, site, "membership test `%s` on a complete list" % norm(c), inside is None,
+                   "`%s` is evaluated inside the loop that is still filling `%s`: whether the symbol is found depends on the order of its "
+                   "prefixes (a differentiated output is not yet among the states when its 'output' prefix is dispatched)" % (norm(c), lst))
+    if n < 1:
+        raise MechanismMissing(R, "the completion step `if s not in states` for outputs was not found")
+
+
 # -- seeded variants ---------------------------------------------------------
 from ._mut import replace_in_func  # noqa: E402
 
@@ -340,3 +382,15 @@ def _m_builtins(mod):
                     n.args[0] = ast.Name(id="__builtins__", ctx=ast.Load())
                     return mod
     return None
+
+
+@SPEC.mutant("output completion folded into the dispatch loop", SYM, "R24.6", "membership test")
+def _m_fold(mod):
+    def edit(fn):
+        for n in ast.walk(fn):
+            if isinstance(n, ast.If) and isinstance(n.test, ast.Compare) and is_name(n.test.left, "prefix") and literal(n.test.comparators[0]) == "output":
+                n.body.append(ast.parse("if s not in states:\n    variables += [s]").body[0])
+                return True
+        return False
+
+    return mod if replace_in_func(mod, CLS + ".exitClass", edit) else None
